@@ -32,7 +32,11 @@ NO_OP_KINDS = ("default", "self_ref_literal", "alias_assign")
 # Flip to True together with the tag-width fix (/verif/.cache/prompts/C02-fix.diff) in /repo: the model is then
 # evaluated with tag_width = 1 (driver fields hi1/class1; Coq: C02_fixed_tag_variant_to_enum).
 TAG_FIXED = True   # fix 38e2441 committed in /repo
-TW = "1" if TAG_FIXED else "8"
+# Flip to True together with fix candidate C02-2/3 (/verif/.cache/prompts/C02-2-fix.diff: write_all copies
+# `size` bytes): the model is then evaluated as footprint_sz (driver fields hiS/classS; Coq:
+# C02_sizecopy_except_known) and NO guard may change for any write kind.
+COPY_FIXED = os.environ.get("VERIF_C02_COPY_FIXED", "0") == "1"   # default False; env only for trying the candidate
+TW = "S" if COPY_FIXED else ("1" if TAG_FIXED else "8")
 
 
 def vl(ty):
@@ -50,7 +54,7 @@ def op_line(b):
     S, R = E.size_of(ty), E.stride(ty)
     st = 1 if cont in ("lit", "local") else 0
     if kind in ("arg", "alias_ret") or src in ("literal", "payload_var"):
-        ref_hi = E._literal_write_hi(ty, b["new"], TAG_FIXED)[0]
+        ref_hi = S if COPY_FIXED else E._literal_write_hi(ty, b["new"], TAG_FIXED)[0]
         k = ty["k"]
         val = b["new"]
         if k == "enum":
@@ -64,7 +68,7 @@ def op_line(b):
             which = "err" if "err" in val else "ok"
             return "union %d %d %s %d" % (S, S - 1, vl(ty[which]), st), ref_hi
         return None
-    ref_hi = R if E.is_aggregate(ty) else S
+    ref_hi = S if COPY_FIXED else (R if E.is_aggregate(ty) else S)
     return "copy %d %d %d %d %d" % (S, R, 1 if E.is_aggregate(ty) else 0, S, st), max(ref_hi, S)
 
 
@@ -90,7 +94,8 @@ def literal_class(ty):
     secondary writes of a block: re-initialising the source, building a temporary)."""
     k = ty["k"]
     if k == "enum":
-        return CLASS_NAMES["1"]
+        # with the tag stored as one byte only the stride-sized payload copy remains
+        return CLASS_NAMES["3"] if TAG_FIXED else CLASS_NAMES["1"]
     if k in ("opt", "eu"):
         return CLASS_NAMES["3"]
     return None
@@ -194,6 +199,9 @@ def run(tier, seed):
                                           "kind": b["kind"], "detail": str(det)[-800:]})
                         continue
                     pred = E.predict_clobber(b, d1_fixed=TAG_FIXED)
+                    if COPY_FIXED:
+                        pred = {"post": {}, "pre": {}, "src_post": {}, "n2": False,
+                                "value_wrong": b["kind"] == "self_ref_literal"}
                     m = model_of.get(gidx, {})
                     cls = CLASS_NAMES.get(m.get("class" + TW, "-"))
                     if b["kind"] == "self_ref_literal":
@@ -205,7 +213,7 @@ def run(tier, seed):
                     obs_src = {c["guard_index"] for c in changed if c["region"] == "src_post"}
                     obs_val = [c for c in changed if c["region"].startswith(("value:", "missing:"))]
                     unpredicted = (obs_post - set(pred["post"])) | (obs_src - set(pred["src_post"])) | (obs_pre - set(pred["pre"]))
-                    must = {i for i, val in pred["post"].items() if val == 0}
+                    must = {i for i, val in pred["post"].items() if val is not None}   # bytes whose new value is known and differs from the guard
                     missing = must - obs_post if not crashed else set()
                     val_unexpected = bool(obs_val) and not (pred["value_wrong"] or pred["n2"] or crashed)
                     payload = {"key": "blk:%s:%s" % (b["kind"], E.describe(b)), "stream": "e2e", "block": b,
